@@ -68,7 +68,7 @@ PLANS["C18"] = {
 }
 
 PLANS["C13"] = {
-    "quick": [J("hostile", "f=1", 80), J("hostilepart", "f=1,s=1", 80)],
+    "quick": [J("hostile", "f=1", 80), J("hostilepart", "f=1,s=1", 80), J("acktiming", "p=1", 40)],
     "thorough": [J("hostilefull", "f=1", 600), J("hostileany", "f=1,s=1", 900)],
 }
 
